@@ -518,7 +518,12 @@ func (w *inotify) handleEvent(inEvent *unix.InotifyEvent, buf *[65536]byte, offs
 					// Match on whole path components, so that renaming "dir1"
 					// doesn't also rename "dir10".
 					if ww.path == ev.renamedFrom || strings.HasPrefix(ww.path, ev.renamedFrom+"/") {
+						// Keep the path table in step; otherwise the old name
+						// still maps to this watch, and it gets mixed up with
+						// a new directory created under the old name.
+						delete(w.watches.path, ww.path)
 						ww.path = strings.Replace(ww.path, ev.renamedFrom, ev.Name, 1)
+						w.watches.path[ww.path] = k
 						w.watches.wd[k] = ww
 					}
 				}
